@@ -216,6 +216,10 @@ let make_core (tbl : (string, string) Hashtbl.t) : (string, string, string, stri
     c_scoring_new = (fun a g m -> cres (Printf.sprintf "scoring_new~%s~%s~%s" (tag a) (bits_txt g) (rows_txt m)) id);
     c_revcomp = (fun s -> cres ("revcomp~" ^ s) id);
     c_max_score = (fun s -> cres ("max_score~" ^ s) (fun v -> z_of_string (after_colon v)));
+    (* the scores are part of the content "sm:<abc>:<background>:<rows>" *)
+    c_sm_cells = (fun s -> match fields s with
+        | [_; _; _; rows] when rows <> "-" -> List.map zlist (split '/' rows)
+        | _ -> []);
     c_stripe = (fun a s -> cres (Printf.sprintf "stripe~%s~%s" (tag a) (hex_or_dash (hex_of_cps s))) id);
     c_configure = (fun q s -> cres (Printf.sprintf "configure~%s~%s" q s) id);
     c_score = (fun s q -> cres (Printf.sprintf "score~%s~%s" s q) id);
